@@ -103,7 +103,7 @@ def task_fork(digits, step_list, d4s=None):
 
         obj, raised = sess.call(cls, [vec])
         for cond, exc in raised:
-            nm = type(exc).__name__ if isinstance(exc, BaseException) else exc.cls.name
+            nm = (type(exc).__name__ + " " + str(exc)[:80]) if isinstance(exc, BaseException) else exc.cls.name
             O.must_not(sess, chk, m.OR(cond.l, cond.r), "%s: constructor raises %s" % (label, nm), mk_replay)
         s = obj.attrs.get("base_score")
         npairs = 0
